@@ -45,6 +45,10 @@ def tasks(tier, seed):
                             for ping in ((False, True) if k <= 1 or "silent" in seq else (False,)):
                                 if "silent" in seq and not ping:
                                     continue
+                                if k == 1 and interval == 5 and not ping:
+                                    # the interval given through the module-wide default (websocket.setReconnect) instead of the argument
+                                    ts.append({"kind": "seq", "seq": list(seq), "term": term, "disp": disp, "onrec": onrec, "interval": interval, "ping": ping,
+                                               "via_default": True, "bound": 0, "name": "%s|%s/%s/rec=%s/i=%d/setReconnect" % (",".join(seq), term, disp, onrec, interval)})
                                 ts.append({"kind": "seq", "seq": list(seq), "term": term, "disp": disp, "onrec": onrec, "interval": interval, "ping": ping,
                                            "bound": (2 if tier == "quick" else 4) if (ping and disp == "builtin") else 0,
                                            "name": "%s|%s/%s/rec=%s/i=%d/ping=%s" % (",".join(seq) or "-", term, disp, onrec, interval, ping)})
@@ -164,7 +168,7 @@ class Harness:
         attempts.append("refused")
         I = d["interval"]
         cbs = list(ALL_CB) + (["on_reconnect"] if d["onrec"] else [])
-        run_kwargs = {"reconnect": I}
+        run_kwargs = {"reconnect": I} if not d.get("via_default") else {}
         if d["ping"]:
             run_kwargs.update(ping_interval=4, ping_timeout=2)
         actions = {}
@@ -191,6 +195,7 @@ class Harness:
             spec["closer"] = {"start_after": "on_open", "delay": d.get("delay", 0)}
         if rel is not None:
             actions["on_close"] = lambda app, run, r=rel: r.abort()
+        spec["module_reconnect"] = I if d.get("via_default") else None
         run = appsim.AppRun(ch, spec)
         net_hook = {}
 
